@@ -45,9 +45,9 @@ DONE = {
   note="Channels have capacity 4096 so the actor never blocks; a post-state that differs from the model is attributed to C02 and only model-independent clauses are judged.",
   technique=PBT + ": event-sequence oracle from the reference model over observed pre-states"),
  "C14": dict(level="exploration",
-  text="Sequential client histories over three documents covering every request kind of the store handle; a per-document model {exists, handles, sync, subscribers, entries} predicts each reply's success class, close's boolean, get_state and the contents; failed requests must change nothing; the store returned by shutdown must hold every acknowledged write.",
-  note="One client, so replies-in-request-order is checked as 'each reply reflects all earlier requests'; concurrent clients are not explored by this check.",
-  technique=PBT + ": history vs. open/close/sync state-machine model"),
+  text="Sequential client histories over three documents covering every request kind of the store handle, plus a concurrent variant (two client threads; Wing-Gong linearizability search against the same model); a per-document model {exists, handles, sync, subscribers, entries} predicts each reply's success class, close's boolean, get_state and the contents; failed requests must change nothing; the store returned by shutdown must hold every acknowledged write.",
+  note="Sequential variant: one client, replies-in-request-order is checked as 'each reply reflects all earlier requests'. Concurrent variant: two client threads, <= 5 requests each on one document; the recorded history must be linearizable w.r.t. the model whatever interleaving the OS produced (verdict independent of the interleaving, coverage of interleavings is whatever the OS gives).",
+  technique=PBT + ": history vs. open/close/sync state-machine model; linearizability check for concurrent clients"),
  "C09": dict(level="exploration",
   text="Frame streams built from real session transcripts are written with the real encoder, cut at generated points (also inside length prefixes), truncated and corrupted byte by byte, and decoded with the real decoder; signed entries and key pairs are compared with an independent byte-layout encoder and the suite's golden snapshots; tickets, capabilities, policies and head sets are round-tripped; random and mutated-valid byte strings are fed to ten decoder targets whose bodies contain the round-trip oracle. The thorough tier adds a coverage-guided libFuzzer campaign (cargo-fuzz) over the same target bodies.",
   note="The encoder is exercised only as the crate uses it (FramedWrite::send). libFuzzer runs are pinned only approximately by -seed/-runs; a saved artifact is converted into a JSON replay and judged by the release-build oracle.",
